@@ -5,6 +5,8 @@ import (
 	"strings"
 	"time"
 
+	"github.com/huderlem/poryscript/parser"
+
 	"pmc/internal/comp"
 	"pmc/internal/harness"
 )
@@ -31,7 +33,16 @@ var c10Names = []string{"foo", "é_cmd", "iff", "endx", "msgbox", "END", "Return
 
 // c10Valid: balanced parentheses (depth <= 2 inside the list), no empty
 // argument, inline data only as a whole argument.
-const c10Contexts = 11
+// every command name of the alphabet is an AutoVar command (that only matters where a command stands in a condition)
+var c10Cmd = func() parser.CommandConfig {
+	c := parser.CommandConfig{AutoVarCommands: map[string]parser.AutoVarCommand{}}
+	for _, n := range c10Names {
+		c.AutoVarCommands[n] = parser.AutoVarCommand{VarName: "VAR_RESULT"}
+	}
+	return c
+}()
+
+const c10Contexts = 12
 
 func c10Valid(seq []argTok) bool {
 	depth := 0
@@ -202,6 +213,9 @@ func runC10(tier string) int {
 					case 9: // last command of a switch case
 						src = "script S {\n\tswitch (var(V)) {\n\t\tcase 1:\n\t\t\tpre\n\t\t\t" + csrc + "\n\t\tcase 2:\n\t\t\tpost\n\t}\n}\n"
 						want = []string{"\tpre", "\t" + cout}
+					case 11: // the command is an AutoVar command standing in the middle of a condition (it is rendered like a statement, before its comparison)
+						src = "script S {\n\tif (flag(A) && " + csrc + " && flag(B) || flag(C)) {\n\t\tx\n\t}\n}\n"
+						want = []string{"\t" + cout, "\tcompare VAR_RESULT, 0"}
 					case 10: // after a command whose moves() is one step spelled like this command's two steps joined, and whose text is spelled like this command's text with its type
 						src = "script S {\n\tpre(moves(ud), braille\"hi\")\n\t" + csrc + "\n}\n"
 						cout = strings.ReplaceAll(strings.ReplaceAll(cout, "S_Movement_0", "S_Movement_1"), "S_Text_0", "S_Text_1")
@@ -211,7 +225,7 @@ func runC10(tier string) int {
 						want = []string{"\tpre", "\t" + cout, "\tpost"}
 					}
 					src = "const K = 5\nconst K2 = 1 + 2\n" + src
-					res := comp.Compile(src, comp.Opts{Optimize: true, Switches: map[string]string{"PV": "SEL"}})
+					res := comp.Compile(src, comp.Opts{Optimize: true, Switches: map[string]string{"PV": "SEL"}, Cmd: c10Cmd})
 					r.Add("evaluations", 1)
 					if nargs >= 2 && hasParen {
 						r.Add("nontrivial", 1)
@@ -261,7 +275,7 @@ func runC10(tier string) int {
 							Summary: fmt.Sprintf("command %q ctx=%d:\n  emitted %q\n  want    %q", csrc, ctx, res.Out, strings.Join(wantAll, "\n")),
 							Replay:  map[string]interface{}{"source": src, "want": strings.Join(wantAll, "\n"), "output": res.Out},
 							Recheck: func() bool {
-								return comp.Compile(s2, comp.Opts{Optimize: true, Switches: map[string]string{"PV": "SEL"}}).Out == res.Out
+								return comp.Compile(s2, comp.Opts{Optimize: true, Switches: map[string]string{"PV": "SEL"}, Cmd: c10Cmd}).Out == res.Out
 							},
 						})
 					} else if r.WantSample() && nargs >= 3 && hasParen {
@@ -376,5 +390,5 @@ func runC10(tier string) int {
 	r.Assume("expected line = name, then the source tokens joined by single spaces with no space before a comma; constants replaced by their value; an inline text / moves() that is a whole argument replaced by its label",
 		"no empty arguments, inline data only as whole arguments, parentheses balanced to depth 2 (the property's domain)")
 	return r.Finish(r.Get("evaluations"), r.Get("nontrivial"),
-		"every argument token sequence of length <= L over a 24-token alphabet (identifiers incl. multi-byte, keywords, decimal/negative/hex numbers, operators, an illegal character, parentheses, comma, two constants, inline text, moves()) that is in the domain, with 11 command names incl. case variants of end / return / goto / call (all names for <= 1 token, rotating beyond), in 11 contexts (after a command whose inline data are spelled like this command's data joined / typed, alone, middle of a stretch, twice in a row, all on one line, inside an if body, inside a poryswitch case selected through _ / directly, last command of an if body / loop body / switch case); plus every identifier-like literal of the compiler's own source as command name and as argument in 3 contexts; plus commands with K arguments and stretches of K commands for every K up to the bound in the coverage; the whole emitted file is compared byte for byte with the generator's expectation; non-trivial = >= 2 arguments and nested parentheses")
+		"every argument token sequence of length <= L over a 24-token alphabet (identifiers incl. multi-byte, keywords, decimal/negative/hex numbers, operators, an illegal character, parentheses, comma, two constants, inline text, moves()) that is in the domain, with 11 command names incl. case variants of end / return / goto / call (all names for <= 1 token, rotating beyond), in 12 contexts (as an AutoVar command in the middle of a condition, after a command whose inline data are spelled like this command's data joined / typed, alone, middle of a stretch, twice in a row, all on one line, inside an if body, inside a poryswitch case selected through _ / directly, last command of an if body / loop body / switch case); plus every identifier-like literal of the compiler's own source as command name and as argument in 3 contexts; plus commands with K arguments and stretches of K commands for every K up to the bound in the coverage; the whole emitted file is compared byte for byte with the generator's expectation; non-trivial = >= 2 arguments and nested parentheses")
 }
